@@ -12,7 +12,8 @@ from .. import core
 
 PROPERTY = "C18"
 BASE = [-2, -1, -0.5, -0.125, 0, 0.125, 0.5, 1, 1.5, 2, 3]
-TOLS = [0, 0.125, 0.5, 1]
+TINY = 2.0 ** -60          # far below machine epsilon: still a distinct band around a bound of 0
+TOLS = [0, TINY, 0.125, 0.5, 1]
 
 
 def _lib():
@@ -111,7 +112,7 @@ def _scalar_chunk(args):
         for edge in sorted({low - tol for tol in tols} | {high + tol for tol in tols} |
                            {low, high}):
             probes |= {math.nextafter(edge, -math.inf), math.nextafter(edge, math.inf)}
-            for tiny in (1e-12, 1e-10, 1e-9, 3e-9, 1e-6):
+            for tiny in (TINY / 2, TINY * 2, 1e-17, 1e-12, 1e-10, 1e-9, 3e-9, 1e-6):
                 probes |= {edge - tiny, edge + tiny}
         for value in sorted(probes):
             for tol in tols:
@@ -137,10 +138,12 @@ def _scalar_chunk(args):
 def _point_chunk(args):
     rects, vals = args
     part = core.Part()
+    # and coordinates inside / outside a band of width TINY around a bound of 0
+    vals = list(vals) + [-TINY / 2, TINY / 2, -TINY * 2, TINY * 2]
     pts = list(itertools.product(vals, vals))
     for rect in rects:
         for point in pts:
-            for tol in (0, 0.125, 1, 1e-9):
+            for tol in (0, 0.125, 1, 1e-9, TINY):
                 for clause, msg in check_point(point, rect, tol):
                     part.violation(f"{clause}:{point}:{rect}:{tol}", msg,
                                    {"kind": "point", "point": list(point),
